@@ -158,7 +158,7 @@ PROPS = {
         title='Accepted proofs are bound to each of their elements and to their circuit',
         design_ref='DESIGN.md section 4 / C03',
         bounded=[('plonky2', ['c03_', 'c04_'])],
-        vspecs=['contracts/C03/plonk_verifier.vspec', 'contracts/C03/plonk_fri_instance.vspec', 'contracts/C02/vanishing_poly.vspec', 'contracts/C05/fri_verifier.vspec', 'contracts/C18/fri_shape.vspec', 'contracts/C12/merkle_verify.vspec',
+        vspecs=['contracts/C03/plonk_verifier.vspec', 'contracts/C03/plonk_fri_instance.vspec', 'contracts/C02/vanishing_poly.vspec', 'contracts/C02/plonk_common.vspec', 'contracts/C05/fri_verifier.vspec', 'contracts/C18/fri_shape.vspec', 'contracts/C12/merkle_verify.vspec',
                 'contracts/C04/transcript.vspec', 'contracts/C04/challenger.vspec', 'contracts/C16/compressed_verify.vspec'],
         level_text='Unbounded deductive proof (Verus/Z3) of the acceptance skeleton of the real verifier code: verify() returns Ok only if shape validation '
                    'pinned every vector length to the circuit, the vanishing identity held for EVERY challenge index on the proof\'s own openings, '
@@ -167,7 +167,7 @@ PROPS = {
                    '[verifier_data.constants_sigmas_cap, wires_cap, zs_cap, quotient_cap] in that order. A verifier that stops checking one of these '
                    'fails a named postcondition. The vanishing expression itself (eval_vanishing_poly) is the alpha-combination of the L_0 terms, the partial-product checks, the lookup terms and the '
                    'gate constraints, each for every challenge index on its own slice of the openings (unit vanishing_poly, shared with C02). get_fri_instance and its helpers (unit plonk_fri_instance): four oracles in the order of the caps, '
-                   'EVERY polynomial of every commitment opened at zeta, the Z and all lookup polynomials also at g*zeta.',
+                   'EVERY polynomial of every commitment opened at zeta, the Z and all lookup polynomials also at g*zeta. reduce_with_powers, by which the verifier rebuilds t(zeta) from the quotient chunks (uninterpreted in unit plonk_verifier), returns sum_i chunk[i] (zeta^n)^i over EVERY chunk element (unit plonk_common, shared with C02).',
         level_note='Trusted: Verus+Z3; algebra callees as uninterpreted functions (T10); get_challenges proved against the transcript specification (C04 units, same run); circuit data '
                    'satisfy common_ok. The step from "every element is read by a check or absorbed" to "every change is rejected" is the '
                    'soundness/collision argument (outside the family). Compressed proofs: only the skeleton of CompressedProofWithPublicInputs::verify is under contract (unit compressed_verify: public-input count, shape validation of the decompressed proof (the repair of F11a), the same verify_with_challenges); the decompress path itself (HashMap code, where the open finding F11 sits) is uninterpreted there and covered by the bounded lane only.',
